@@ -411,3 +411,45 @@ def length_capacity(prefix, bias):
         return None
     bits = {"b": 7, "h": 15, "i": 31, "q": 63, "B": 8, "H": 16, "I": 32, "Q": 64}.get(prefix["fmt"][-1])
     return None if bits is None else (1 << bits) - 1 - bias
+
+
+def eval_int_term(t, x):
+    """Value of an integer/boolean term at the concrete point X = x (None when the term uses something else).
+    Used to decide whether a range guard admits the boundary values of a documented domain."""
+    if isinstance(t, list):
+        t = tuple(t)
+    if not isinstance(t, tuple) or not t:
+        return None
+    h = t[0]
+    if h == "X" and len(t) == 1:
+        return x
+    if h == "k":
+        return t[1] if isinstance(t[1], (int, bool)) else None
+    args = [eval_int_term(a, x) for a in t[1:]]
+    if any(a is None for a in args):
+        return None
+    try:
+        if len(args) == 2:
+            a, b = args
+            if h in ("shl", "shr") and not (0 <= b <= 4096):
+                return None
+            f = {"add": lambda: a + b, "sub": lambda: a - b, "mul": lambda: a * b, "shl": lambda: a << b, "shr": lambda: a >> b,
+                 "and": lambda: a & b, "or": lambda: a | b, "xor": lambda: a ^ b, "floordiv": lambda: a // b, "mod": lambda: a % b,
+                 "lt": lambda: a < b, "le": lambda: a <= b, "gt": lambda: a > b, "ge": lambda: a >= b, "eq": lambda: a == b,
+                 "ne": lambda: a != b, "min": lambda: min(a, b), "max": lambda: max(a, b)}.get(h)
+            return None if f is None else f()
+        if len(args) == 1:
+            a = args[0]
+            f = {"abs": lambda: abs(a), "neg": lambda: -a, "invert": lambda: ~a, "nonzero": lambda: a != 0, "not": lambda: not a,
+                 "int": lambda: int(a), "bit_length": lambda: a.bit_length()}.get(h)
+            return None if f is None else f()
+    except (ZeroDivisionError, OverflowError, ValueError):
+        return None
+    return None
+
+
+def domain_points(lo, hi):
+    pts = {lo, lo + 1, hi - 1, hi, -1, 0, 1}
+    for k in (7, 8, 14, 15, 16, 21, 28, 31, 32, 35, 63, 64):
+        pts |= {(1 << k) - 1, 1 << k, -(1 << k), -(1 << k) - 1}
+    return sorted(p for p in pts if lo <= p <= hi)
